@@ -18,7 +18,7 @@ def slim(out):
 
 
 def c03(ctx):
-    res = PT.c01_impl(ctx, 1200, 20000, PT.gen_update_case, 'tree:update-save',
+    res = PT.c01_impl(ctx, 3000, 20000, PT.gen_update_case, 'tree:update-save',
                       'update + save: written Manifests / verification afterwards differ from the reference (C03)')
     cov = ctx.cov['engines']['tree:update-save']
     fresh_ok = fresh_bad = exact_ok = exact_bad = exact_skipped = 0
@@ -233,7 +233,7 @@ def c10(ctx):
     quick = ctx.tier == 'quick'
     label = 'tree:ownership'
     r = ctx.rng(label)
-    n = 1000 if quick else 15000
+    n = 2500 if quick else 15000
     with ET.Scratch() as sc:
         cases = [gen_c10_case(r) for _ in range(n)]
         res = PT.run_cases(ctx, cases, label, sc)
@@ -345,7 +345,7 @@ def c12(ctx):
     quick = ctx.tier == 'quick'
     r = ctx.rng('c12')
     # (1) idempotence
-    n1 = 700 if quick else 10000
+    n1 = 1500 if quick else 10000
     with ET.Scratch() as sc:
         cases = [gen_c12_idem(r) for _ in range(n1)]
         res = PT.run_cases(ctx, cases, 'tree:update-twice', sc)
@@ -382,7 +382,7 @@ def c12(ctx):
               dist={'second_run_no_op': idem_ok, 'second_run_wrote': idem_bad,
                     'runs_not_completing_both_rounds': len(cases) - idem_ok - idem_bad})
     # (2) canonical bytes under sorting
-    n2 = 400 if quick else 6000
+    n2 = 800 if quick else 6000
     pairs = [gen_c12_pair(r) for _ in range(n2)]
     flat = [x for ab in pairs for x in ab]
     with ET.Scratch() as sc:
@@ -527,7 +527,7 @@ def c13(ctx):
     quick = ctx.tier == 'quick'
     r = ctx.rng('c13')
     # (1) transparency of reading
-    n1 = 250 if quick else 4000
+    n1 = 500 if quick else 4000
     groups = [gen_c13_transparent(r) for _ in range(n1)]
     flat = [v for g in groups for v in g]
     with ET.Scratch() as sc:
@@ -566,7 +566,7 @@ def c13(ctx):
               samples=[{'files': groups[0][0].meta.get('files'), 'manifests': groups[0][0].meta.get('manifests'), 'assignments': [v.meta.get('assign') for v in groups[0][1:]], 'ops': groups[0][0].ops}],
               dist={'variant_runs_equal_to_base': same, 'variant_runs_differing': differ})
     # (2) the watermark rule, boundaries taken from a first run
-    n2 = 250 if quick else 4000
+    n2 = 600 if quick else 4000
     firsts = []
     for _ in range(n2):
         while True:
